@@ -627,9 +627,40 @@ namespace
         // forward_sequence: same type -> the argument itself (no copy); other type -> a converted copy
         void op_forward_sequence(const Step& st)
         {
-            unsigned v = static_cast<unsigned>(st.d % 4);
-            static const char* const vn[] = {"same_type_lvalue", "same_type_rvalue", "vector_to_array", "array_to_vector"};
+            unsigned v = static_cast<unsigned>(st.d % 10);
+            static const char* const vn[] = {"same_type_lvalue", "same_type_rvalue", "vector_to_array", "array_to_vector",
+                                             "same_type_const_lvalue", "same_array_const_lvalue", "same_array_lvalue", "same_array_rvalue",
+                                             "cvref_qualified_result_type", "tracked_vector_to_array"};
             Scope sc(*this, st, "forward_sequence", vn[v]);
+            if (v >= 4)
+            {
+                // sequences of copy-counting elements: forwarding a sequence of the requested type must hand back the
+                // argument itself, whatever its cv/reference form, without copying a single element
+                using VP = std::vector<P>; using AP = std::array<P, 3>;
+                uint64_t base = fresh();
+                VP vp; vp.reserve(3); for (uint64_t k = 0; k < 3; ++k) vp.emplace_back(base + k);
+                AP ap{{P(base), P(base + 1), P(base + 2)}};
+                uint64_t copies = registry().copies, moves = registry().moves;
+                const char* what = nullptr;
+                if (v == 4) { const VP& c = vp; auto&& r = xtl::forward_sequence<VP, const VP&>(c); if (static_cast<const void*>(&r) != &vp) what = "a const lvalue of the requested type"; }
+                else if (v == 5) { const AP& c = ap; auto&& r = xtl::forward_sequence<AP, const AP&>(c); if (static_cast<const void*>(&r) != &ap) what = "a const lvalue array of the requested type"; }
+                else if (v == 6) { auto&& r = xtl::forward_sequence<AP, AP&>(ap); if (static_cast<const void*>(&r) != &ap) what = "an lvalue array of the requested type"; else { r[1].id = 7; if (ap[1].id != 7) what = "an lvalue array (write through)"; } }
+                else if (v == 7) { auto&& r = xtl::forward_sequence<AP, AP>(std::move(ap)); if (static_cast<const void*>(&r) != &ap) what = "an rvalue array of the requested type"; }
+                else if (v == 8) { auto&& r = xtl::forward_sequence<const VP&, VP&>(vp); if (static_cast<const void*>(&r) != &vp) what = "an lvalue, the result type being given as const R&"; }
+                else
+                {
+                    AP r = xtl::forward_sequence<AP, const VP&>(vp);     // another type: an independent converted copy
+                    if (r[0].id != base || r[2].id != base + 2) viol("model", "forward", "converted copy differs from the source");
+                    r[0].id = 1; if (vp[0].id == 1) viol("model", "forward", "converted sequence aliases its source");
+                    copies = registry().copies; moves = registry().moves;
+                }
+                if (what) viol("model", "forward", std::string("forward_sequence of ") + what + " does not return the object itself");
+                if (registry().copies != copies || registry().moves != moves)
+                    viol("model", "no-copy", std::string("forward_sequence (") + vn[v] + ") copied or moved elements of a sequence that already has the requested type");
+                SIM_PROBE("forward_sequence_checked");
+                check_all();
+                return;
+            }
             std::vector<int> vec{static_cast<int>(st.a % 100), 2, 3};
             std::array<int, 3> arr{{static_cast<int>(st.b % 100), 5, 6}};
             if (v == 0)
